@@ -317,6 +317,14 @@ func (s *Syncer[H]) processHeaders(
 			break
 		}
 
+		// a head may be learned concurrently via gossip and Head() and be stored by one path
+		// while still pending from the other: drop what is already stored,
+		// otherwise it is rejected as non-adjacent on every sync attempt
+		headersRange.Remove(fromHead.Height())
+		if headersRange.Empty() {
+			continue
+		}
+
 		headers := headersRange.Get(to)
 		if len(headers) == 0 {
 			break
